@@ -409,6 +409,17 @@ func orchestrate(prop, tier string, seed uint64) int {
 		fmt.Fprintln(os.Stderr, "known findings:", err)
 		return 2
 	}
+	// checks whose oracle is a model first validate that model against the kernel / os.File (C09: the needle set against a clear tape)
+	if sel := map[string][]int{"C02": {0}, "C11": {0}, "C14": {1}, "C09": {2}}[prop]; len(sel) > 0 {
+		for _, i := range sel {
+			if i < len(selfTests) {
+				if err := selfTests[i].fn(); err != nil {
+					fmt.Printf("INCONCLUSIVE property=%s the harness's own oracle failed its self-test (%s): %v\n", prop, selfTests[i].name, err)
+					return 2
+				}
+			}
+		}
+	}
 	cases := e.Cases(prop, tier, seed)
 	if len(cases) == 0 {
 		fmt.Fprintln(os.Stderr, "no cases")
